@@ -31,7 +31,8 @@ ASSUMPTIONS = ["async-broadcast contract (C19/Broadcast.v)",
                "MatchRule::matches is a parameter of the model (property C21); the replay uses the specification's matcher for "
                "type/interface/member rules and compares it with the real one on every message",
                "executor: any runnable task may be picked; max_queued = Some(0) is not used (async_broadcast::broadcast(0) panics)"]
-PARTIAL = ["C20_delivery_partial", "C20_share_partial", "C20_progress_partial", "C20_clone_refuted", "C20_async_drop_refuted"]
+PARTIAL = ["C20_delivery_partial", "C20_delivery_quiescent", "C20_registered", "C20_share_partial", "C20_progress_partial",
+           "C20_clone_uncounted_refuted", "C20_clone_count_refuted", "C20_async_drop_deadlock_refuted"]
 SHARDS = 4
 
 RULESETS = ["A*,A1,A1,B*", "**,A*,A*,A1", "A*,A*,A2,B1", "B*,A1,B*,B2", "**,**,B*,B1", "A1,A*,A1,**"]
